@@ -66,6 +66,12 @@ func (a jsonList) diff(
 	if strategy == mergePatchStrategy {
 		return a.diffMergePatchStrategy(b, path, options)
 	}
+	if p, ok := getOption[precisionOption](options); ok && p.precision > 0 && a.Equals(b, options...) {
+		// Elements are matched by hash code below, which cannot
+		// express a tolerance. Lists that are equal within the
+		// precision have no difference to report.
+		return Diff{}
+	}
 	aHashes := make([]interface{}, len(a))
 	bHashes := make([]interface{}, len(b))
 	for i, v := range a {
